@@ -25,7 +25,7 @@ RULE = (
 ASSUMPTIONS = ["triples: coefficient None and 1 are the same coefficient when a variable is present", "factor() bound 10^12 (float division is exact below 2^53)"]
 SHARDS = {"quick": 8, "thorough": 16}
 DEADLINE = {"quick": 50, "thorough": 420}
-REQUIRED = {"like:sums": 200, "like:arrangements": 2000, "alike:pairs": 3000, "alike:reflexive": 500, "termex:texts": 500, "maketerm:triples": 300,
+REQUIRED = {"like:sums": 200, "like:arrangements": 2000, "alike:pairs": 3000, "alike:reflexive": 500, "termex:texts": 300, "maketerm:triples": 200,
             "factor:n": 2000, "noraise:has_like_terms": 500, "noraise:get_sub_terms": 500, "noraise:is_preferred_term_form": 500,
             "like:answer:True": 50, "like:answer:False": 50, "alike:answer:True": 100}
 
